@@ -2,6 +2,10 @@ import CelmaVerif.Lemmas.ConcurrencyRace
 import CelmaVerif.Lemmas.ConcurrencyManaged
 import CelmaVerif.Lemmas.ConcurrencyLive
 import CelmaVerif.Lemmas.ConcurrencyHB
+import CelmaVerif.Lemmas.ConcurrencyEventsInv
+import CelmaVerif.Lemmas.ConcurrencyEventsCount
+import CelmaVerif.Lemmas.ConcurrencyManagedRace
+import CelmaVerif.Lemmas.ConcurrencyManagedEvents
 /-
   C20 — concurrency helpers keep their contract under every schedule.
   Property theorems only; the invariants are in Lemmas/Concurrency*.lean.  All theorems are about
@@ -13,8 +17,19 @@ import CelmaVerif.Lemmas.ConcurrencyHB
   tracks exactly the synchronises-with edges the configuration justifies (unlock → lock, release
   store → acquire load), and `C20_singleton_published` / `C20_managed_result_published` need
   `loadAcq`, `storeRel`, `flagOrders`; they FAIL in the relaxed configurations
-  (`C20_relaxed_*`).  What stays outside: executions of the C++ memory model that are not
-  interleavings (partial in that sense; the only atomic cells are written once resp. by one thread).
+  (`C20_relaxed_*`).  The ghost is not its own specification (audit 2, finding 6): `HBefore`
+  (Lemmas/ConcurrencyEvents.lean) is the transitive closure of program order ∪ unlock → lock ∪
+  release store → acquire load reading from it over the *event trace* of the run, defined without
+  any reference to the ghost; `C20_hb_ghost_exact` proves the ghost sound and complete against it
+  for every configuration, and `C20_singleton_published_events` states the publication on events.
+  What stays outside — for EVERY theorem of this file, in particular `C20_singleton_race_free`,
+  `C20_managed_race_free`, `C20_singleton_published*`, `C20_managed_active`,
+  `C20_managed_result_published` (they are partial in this sense although not suffixed
+  `_partial`) —: executions of the C++ memory model that are not sequentially consistent
+  interleavings.  Reads-from is the last store of the interleaving.  For the singleton cell that
+  is harmless (it is stored once; a stale null only sends the thread to the mutex path, whose
+  load is ordered by the mutex); for `mActive` (three stores) it is a restriction, see
+  `C20_managed_active`.
 -/
 namespace CelmaVerif.Props.C20
 open CelmaVerif CelmaVerif.Concurrency
@@ -79,6 +94,32 @@ theorem C20_singleton_effective_steps (n : Nat) (sched : List Nat) (t : Nat) :
   have := srunFrom_measure_le Cfg.current n sched SState.init
   rw [measure_init] at this
   exact this
+
+/-- **At most `7·n` entries of any schedule change the state** (the count, audit 2).  The event
+    trace `strace` receives one event per schedule entry that is not a stutter step (`stepTrace`),
+    an entry emits no event exactly when it leaves the state unchanged — in every state, reachable
+    or not —, and the trace of every schedule has at most `7·n` events. -/
+theorem C20_singleton_effective_steps_bound (n : Nat) (sched : List Nat) :
+    (strace Cfg.current n sched).length ≤ 7 * n ∧
+    (∀ t, strace Cfg.current n (sched ++ [t]) =
+        stepTrace n (srun Cfg.current n sched) (strace Cfg.current n sched) t) ∧
+    (∀ (s : SState) (tr : List Ev) (t : Nat),
+        (stepTrace n s tr t = tr ↔ sstep Cfg.current n s t = s) ∧
+        (stepTrace n s tr t = tr ∨ ∃ e, stepTrace n s tr t = tr ++ [e])) := by
+  refine ⟨strace_length_le _ n sched, fun t => ?_, fun s tr t => ?_⟩
+  · have h := strace_snoc Cfg.current n sched t SState.init HB.init []
+    have e := trunFrom_fst Cfg.current n sched SState.init HB.init []
+    have e1 : srun Cfg.current n sched = (trunFrom Cfg.current n SState.init HB.init [] sched).1 := by
+      rw [← hrun_fst]; unfold hrun; rw [← e]
+    unfold strace; rw [h, e1]
+  · rw [← sevent_none_iff Cfg.current n s t]
+    unfold stepTrace
+    cases sevent n s t with
+    | none => exact ⟨⟨fun _ => rfl, fun _ => rfl⟩, Or.inl rfl⟩
+    | some e =>
+      refine ⟨⟨fun h => ?_, fun h => by cases h⟩, Or.inr ⟨e, rfl⟩⟩
+      have := congrArg List.length h
+      simp at this
 
 /-- Race freedom in the model's sense: in no reachable state (every prefix of every schedule is a
     schedule) do two threads have enabled conflicting accesses to a non-atomic cell. -/
@@ -146,10 +187,95 @@ theorem C20_singleton_publication :
     Cfg.current.ptrAtomic = true ∧ Cfg.current.loadAcq = true ∧ Cfg.current.storeRel = true := by
   decide
 
+/-! ### happens-before on the event trace (independent of the ghost) -/
+
+/-- **The happens-before ghost is exact.**  `HBefore cfg tr` is the transitive closure, over the
+    event trace `tr` of the run, of: program order; an earlier `unlock` → a later `lock`; a store
+    into the fast-path cell → an unlocked first load such that no store lies between them
+    (reads-from of the interleaving), provided the cell is an atomic, the store a release and the
+    load an acquire (`Edge`, Lemmas/ConcurrencyEvents.lean — no mention of the ghost).  For EVERY
+    configuration, number of threads and schedule: `knows t` holds iff some construction event is,
+    or happens-before, an event of thread `t` (hence happens-before whatever `t` does next), and
+    `racyUse` lists exactly the threads with a `read3` event — the statement that hands out and
+    uses the object — that no construction event happens-before. -/
+theorem C20_hb_ghost_exact (cfg : Cfg) (n : Nat) (sched : List Nat) :
+    (∀ t, (hrun cfg n sched).2.knows t = true ↔
+      ∃ i c, OfThread (strace cfg n sched) i t ∧ IsKind (strace cfg n sched) c .construct ∧
+        (c = i ∨ HBefore cfg (strace cfg n sched) c i)) ∧
+    (∀ t, t ∈ (hrun cfg n sched).2.racyUse ↔
+      ∃ j, (strace cfg n sched)[j]? = some ⟨t, .read3⟩ ∧
+        ¬ ∃ c, IsKind (strace cfg n sched) c .construct ∧ HBefore cfg (strace cfg n sched) c j) := by
+  have h := einv_run cfg n sched
+  constructor
+  · intro t
+    rw [h.knows t]
+    constructor
+    · rintro ⟨i, hi, c, hc, hor⟩; exact ⟨i, c, hi, hc, hor⟩
+    · rintro ⟨i, c, hi, hc, hor⟩; exact ⟨i, hi, c, hc, hor⟩
+  · intro t
+    rw [h.racy t]
+    constructor
+    · rintro ⟨j, hj, hn⟩
+      exact ⟨j, hj, fun ⟨c, hc, hb⟩ => hn ⟨c, hc, Or.inr hb⟩⟩
+    · rintro ⟨j, hj, hn⟩
+      refine ⟨j, hj, ?_⟩
+      rintro ⟨c, ⟨a, ha, hk⟩, rfl | hb⟩
+      · rw [hj] at ha; cases ha; cases hk
+      · exact hn ⟨c, ⟨a, ha, hk⟩, hb⟩
+
+/-- **Publication, stated on events only.**  In the event trace of every schedule of any number
+    of threads, every `read3` event (a thread is handed the object and uses it) is preceded in
+    happens-before by a construction event: a path of program-order, unlock → lock and release
+    store → acquire load edges leads from `new T` to the use.  (No ghost state in the statement;
+    the facts used about the source are `ptrAtomic`, `loadAcq`, `storeRel`, by `decide`.) -/
+theorem C20_singleton_published_events (n : Nat) (sched : List Nat) (j t : Nat)
+    (hj : (strace Cfg.current n sched)[j]? = some ⟨t, .read3⟩) :
+    ∃ c, IsKind (strace Cfg.current n sched) c .construct ∧
+      HBefore Cfg.current (strace Cfg.current n sched) c j := by
+  apply Classical.byContradiction
+  intro hn
+  have h := ((C20_hb_ghost_exact Cfg.current n sched).2 t).mpr ⟨j, hj, hn⟩
+  rw [(C20_singleton_published n sched).1] at h
+  cases h
+
+/-- … and on events it fails with a **relaxed load**: thread 1's use of the object has no
+    construction event happening-before it — whatever path one tries, since `HBefore` is the
+    closure of all edges the configuration justifies -/
+theorem C20_relaxed_load_unpublished_events :
+    ∃ j, (strace { Cfg.current with loadAcq := false } 2 [0, 0, 0, 0, 0, 1, 1])[j]? = some ⟨1, .read3⟩ ∧
+      ¬ ∃ c, IsKind (strace { Cfg.current with loadAcq := false } 2 [0, 0, 0, 0, 0, 1, 1]) c .construct ∧
+        HBefore { Cfg.current with loadAcq := false }
+          (strace { Cfg.current with loadAcq := false } 2 [0, 0, 0, 0, 0, 1, 1]) c j :=
+  ((C20_hb_ghost_exact _ 2 _).2 1).mp (by decide)
+
+/-- the same with a **relaxed store**, and at the pinned commit (plain pointer) -/
+theorem C20_relaxed_store_unpublished_events :
+    ∃ j, (strace { Cfg.current with storeRel := false } 2 [0, 0, 0, 0, 0, 1, 1])[j]? = some ⟨1, .read3⟩ ∧
+      ¬ ∃ c, IsKind (strace { Cfg.current with storeRel := false } 2 [0, 0, 0, 0, 0, 1, 1]) c .construct ∧
+        HBefore { Cfg.current with storeRel := false }
+          (strace { Cfg.current with storeRel := false } 2 [0, 0, 0, 0, 0, 1, 1]) c j :=
+  ((C20_hb_ghost_exact _ 2 _).2 1).mp (by decide)
+
+theorem C20_head_unpublished_events :
+    ∃ j, (strace Cfg.head 2 [0, 0, 0, 0, 0, 1, 1])[j]? = some ⟨1, .read3⟩ ∧
+      ¬ ∃ c, IsKind (strace Cfg.head 2 [0, 0, 0, 0, 0, 1, 1]) c .construct ∧
+        HBefore Cfg.head (strace Cfg.head 2 [0, 0, 0, 0, 0, 1, 1]) c j :=
+  ((C20_hb_ghost_exact _ 2 _).2 1).mp (by decide)
+
 /-! ### ManagedThread -/
 
 /-- Any number of observers, any schedule: every `isActive()` call made while the user function
-    is running (the observer has seen it started, it has not finished) returns true. -/
+    is running returns true.  "While it is running" is the window `during` of the *interleaving*
+    (the function has begun and has not returned at the moment of the load), and the value read is
+    the last store of the interleaving: this is where the theorem depends on sequential
+    consistency.  `mActive` is stored three times (construction `false`, `store(true)`,
+    `store(false)`); in the C++ memory model an observer reads `true` for certain only if
+    `store(true)` happens-before its load — e.g. because it learnt that the function has started
+    through a release/acquire or stronger channel that the function itself wrote, which is what
+    "has observed that its function has started" means in the property.  An observer that merely
+    runs at the same time, with no such edge, may still read the initial `false`; that execution is
+    not an interleaving and is outside the model (label; the harness' observers learn of the start
+    through a seq_cst sync point, so the tie is inside). -/
 theorem C20_managed_active (nobs : Nat) (sched : List Nat) :
     ∀ x ∈ (mrun Cfg.current nobs sched).samples, x.win = .during → x.val = some true :=
   fun x hx => ((minv_run _ (by decide) nobs sched).samples x hx).1
@@ -162,7 +288,9 @@ theorem C20_managed_inactive (nobs : Nat) (sched : List Nat) :
 
 /-- No race on the flag: its (non-atomic) construction is never enabled together with a store of
     the child, the child never stores into a flag whose lifetime has not begun, no observer ever
-    reads an unconstructed flag, and the flag is an atomic. -/
+    reads an unconstructed flag, and the flag is an atomic.  (`MRacy` is the hand-enumerated
+    predicate; `C20_managed_race_free_derived` is the same for the predicate derived from the
+    access table.  Race = two *enabled* conflicting accesses of the interleaving model.) -/
 theorem C20_managed_race_free (nobs : Nat) (sched : List Nat) :
     ¬ MRacy Cfg.current nobs (mrun Cfg.current nobs sched) ∧
     (mrun Cfg.current nobs sched).early = false ∧
@@ -170,12 +298,39 @@ theorem C20_managed_race_free (nobs : Nat) (sched : List Nat) :
   let h := minv_run Cfg.current (by decide) nobs sched
   ⟨mracy_of_inv _ (by decide) nobs _ h, h.early, fun x hx => (h.samples x hx).2.2⟩
 
-/-- **What the flag's memory orders give.**  An observer whose `isActive()` returns `false` after
-    it has seen the function start (window `after`; it need not know of a `join()`) has read the
+/-- **Race freedom on the flag with the race predicate derived, not enumerated.**  `mAccess`
+    (Lemmas/ConcurrencyManagedRace.lean) says what the next step of every thread does to the flag
+    object — creating thread: plain write while it constructs the `std::atomic<bool>`; managed
+    thread: the two stores; observers: the load of `isActive()`, possible once the constructor has
+    returned — and `MRacyD` is the generic definition: two different threads whose next steps
+    both access the flag, at least one writing, not both atomic.  In no reachable state of any
+    schedule with any number of observers does such a pair exist; and on reachable states the
+    hand-enumerated `MRacy` is equivalent to it, for every configuration whose flag is
+    constructed first. -/
+theorem C20_managed_race_free_derived (nobs : Nat) (sched : List Nat) :
+    ¬ MRacyD Cfg.current nobs (mrun Cfg.current nobs sched) ∧
+    ∀ cfg : Cfg, cfg.flagFirst = true →
+      (MRacyD cfg nobs (mrun cfg nobs sched) ↔ MRacy cfg nobs (mrun cfg nobs sched)) := by
+  refine ⟨fun h => ?_, fun cfg hf => ⟨?_, derived_of_mracy cfg nobs _⟩⟩
+  · exact (C20_managed_race_free nobs sched).1
+      (mracy_of_derived _ nobs _ (minv_run Cfg.current (by decide) nobs sched).joined h)
+  · exact mracy_of_derived cfg nobs _ (minv_run cfg hf nobs sched).joined
+
+/-- the derived predicate is not vacuous: at the pinned commit (flag member initialised after the
+    `std::thread` base class has started the thread) it holds after one step -/
+theorem C20_head_managed_racy_derived : MRacyD Cfg.head 1 (mrun Cfg.head 1 [0]) :=
+  ⟨0, 1, ⟨true, false⟩, ⟨true, true⟩, by decide, by decide, by decide, rfl, rfl⟩
+
+/-- **What the flag's memory orders give.**  An observer whose `isActive()` returns `false` at a
+    moment when the user function has **returned** (window `after` of the interleaving — the
+    hypothesis is about the global state, not about what the observer has seen; under sequential
+    consistency "the observer saw the function start and now reads false" implies it) has read the
     value the managed thread stored after the function returned; with release stores and an
     acquire load that read synchronises: the end of the user function — everything it wrote —
     happens-before the observer's next event (`mhbStep`).  Every such sample of every schedule is
-    marked published. -/
+    marked published, whether or not the thread has been joined: `join()` is not an edge of
+    `mhbStep` (it orders the joining thread only, and an observer is an arbitrary thread), the
+    mark comes from the flag's orders alone — `C20_relaxed_flag_unpublished_after_join`. -/
 theorem C20_managed_result_published (nobs : Nat) (sched : List Nat) :
     (mhrun Cfg.current nobs sched).2.map Prod.fst = (mrun Cfg.current nobs sched).samples ∧
     ∀ p ∈ (mhrun Cfg.current nobs sched).2, p.1.win = .after → p.1.val = some false → p.2 = true := by
@@ -188,6 +343,73 @@ theorem C20_managed_result_published (nobs : Nat) (sched : List Nat) :
 theorem C20_relaxed_flag_unpublished :
     (mhrun { Cfg.current with flagOrders := false } 1 [0, 0, 0, 1, 1, 1, 1, 1, 2]).2 =
       [(⟨2, .after, false, some false⟩, false)] := by decide
+
+/-- … also after a `join()`: with relaxed orders on the flag a sample taken after the parent has
+    joined the thread, by an observer that is not the parent, is NOT published — nothing but the
+    flag connects the observer with the managed thread (until 2026-09-30 `mhbStep` marked every
+    post-join sample published; audit 2, finding 6) -/
+theorem C20_relaxed_flag_unpublished_after_join :
+    (mhrun { Cfg.current with flagOrders := false } 1 [0, 0, 0, 1, 1, 1, 1, 1, 0, 2]).2 =
+      [(⟨2, .after, true, some false⟩, false)] := by decide
+
+/-- **The published-mark is exact against an event-level happens-before relation.**  `mtrace` is the
+    event trace of the ManagedThread model (creating thread: `begin`, `init` = construction of the
+    flag, `start`, `join`; managed thread: `storeT`, `fBegin`, `inF`, `fEnd` = the user function has
+    returned, `storeF`; observers: `load`), `MHB cfg tr` the transitive closure of: program order;
+    thread creation → every event of the managed thread; every event of the managed thread → the
+    return of `join()`; a store of the managed thread → a load with no write to the flag in
+    between (reads-from of the interleaving), provided the flag is an atomic with release /
+    acquire orders (`MEdge`, Lemmas/ConcurrencyManagedEvents.lean — the mark of `mhbStep` is not
+    mentioned there).  For every configuration whose flag is constructed before the thread is
+    started, every schedule and any number of observers: the marked samples and the load events
+    of the trace correspond position by position (`loadIdx` = positions of the load events), the
+    `k`-th load event is the `isActive()` call of the `k`-th sample's observer, and the sample is
+    marked published iff an `fEnd` event happens-before that load event. -/
+theorem C20_managed_mark_exact (cfg : Cfg) (hf : cfg.flagFirst = true) (nobs : Nat) (sched : List Nat) :
+    (mhrun cfg nobs sched).2.length = (loadIdx (mtrace cfg nobs sched)).length ∧
+    ∀ (k : Nat) (p : Sample × Bool) (j : Nat),
+      (mhrun cfg nobs sched).2[k]? = some p → (loadIdx (mtrace cfg nobs sched))[k]? = some j →
+      (mtrace cfg nobs sched)[j]? = some ⟨p.1.obs, .load⟩ ∧
+      (p.2 = true ↔ ∃ (e : Nat) (a : MEv), (mtrace cfg nobs sched)[e]? = some a ∧ a.kind = .fEnd ∧
+        MHB cfg (mtrace cfg nobs sched) e j) := by
+  obtain ⟨hl, hg⟩ := linked_get _ _ (marks_exact cfg hf nobs sched)
+  refine ⟨hl, fun k p j hp hj => ?_⟩
+  obtain ⟨h1, h2⟩ := hg k p j hp hj
+  refine ⟨h1, ?_⟩
+  rw [h2]
+  constructor
+  · rintro ⟨e, a, ha, hk, rfl | hb⟩
+    · rw [h1] at ha; cases ha; cases hk
+    · exact ⟨e, a, ha, hk, hb⟩
+  · rintro ⟨e, a, ha, hk, hb⟩; exact ⟨e, a, ha, hk, Or.inr hb⟩
+
+/-- **Publication of the function's result, stated on events.**  For the source as it is: the
+    load event of every sample that reads `false` at a moment when the user function has returned
+    has an `fEnd` event happening-before it (a path `fEnd →po storeF →release/acquire load`, possibly
+    continued by program order of the observer). -/
+theorem C20_managed_result_published_events (nobs : Nat) (sched : List Nat) (k : Nat) (p : Sample × Bool) (j : Nat)
+    (hp : (mhrun Cfg.current nobs sched).2[k]? = some p)
+    (hj : (loadIdx (mtrace Cfg.current nobs sched))[k]? = some j)
+    (hw : p.1.win = .after) (hv : p.1.val = some false) :
+    ∃ (e : Nat) (a : MEv), (mtrace Cfg.current nobs sched)[e]? = some a ∧ a.kind = .fEnd ∧
+      MHB Cfg.current (mtrace Cfg.current nobs sched) e j :=
+  (((C20_managed_mark_exact Cfg.current (by decide) nobs sched).2 k p j hp hj).2).mp
+    ((C20_managed_result_published nobs sched).2 p (List.mem_of_getElem? hp) hw hv)
+
+/-- … and with relaxed orders on the flag no path exists, not even after the parent has joined the
+    thread: the observer's load (event 9 of the trace; events 6 = `fEnd`, 7 = `storeF`, 8 = `join`)
+    has no `fEnd` event happening-before it -/
+theorem C20_relaxed_flag_unpublished_events :
+    (mtrace { Cfg.current with flagOrders := false } 1 [0, 0, 0, 1, 1, 1, 1, 1, 0, 2])[9]? = some ⟨2, .load⟩ ∧
+    ¬ ∃ (e : Nat) (a : MEv),
+      (mtrace { Cfg.current with flagOrders := false } 1 [0, 0, 0, 1, 1, 1, 1, 1, 0, 2])[e]? = some a ∧ a.kind = .fEnd ∧
+      MHB { Cfg.current with flagOrders := false }
+        (mtrace { Cfg.current with flagOrders := false } 1 [0, 0, 0, 1, 1, 1, 1, 1, 0, 2]) e 9 := by
+  have h := (C20_managed_mark_exact { Cfg.current with flagOrders := false } (by decide) 1
+    [0, 0, 0, 1, 1, 1, 1, 1, 0, 2]).2 0 (⟨2, .after, true, some false⟩, false) 9 (by decide) (by decide)
+  refine ⟨h.1, fun hex => ?_⟩
+  have := h.2.mpr hex
+  cases this
 
 /-- source facts `C20_managed_result_published` consumes: the stores use release and
     `isActive()` acquire (or stronger), the flag is an atomic -/
@@ -265,6 +487,55 @@ example (n : Nat) (hn : 0 < n) : Fair n (fun k => k % n) := by
 example : ((hrun Cfg.current 3 [0, 0, 0, 0, 0, 1, 2, 0, 2, 2, 2, 1]).1.pc 1 = .done) ∧
     ((hrun Cfg.current 3 [0, 0, 0, 0, 0, 1, 2, 0, 2, 2, 2, 1]).2.knows 1 = true) ∧
     ((hrun Cfg.current 3 [0, 0, 0, 0, 0, 1, 2, 0, 2, 2, 2, 1]).2.knows 2 = true) := by decide
+
+/-- `C20_singleton_published_events` is about events that exist, and the paths are the expected
+    ones.  Slow path: thread 1 fails the first check, waits for the mutex; trace positions
+    4 = construct(0), 6 = unlock(0), 8 = lock(1), 11 = read3(1): construct →po unlock →mutex lock →po read3. -/
+example :
+    (strace Cfg.current 2 [0, 0, 1, 0, 0, 0, 0, 0, 1, 1, 1, 1])[11]? = some ⟨1, .read3⟩ ∧
+    HBefore Cfg.current (strace Cfg.current 2 [0, 0, 1, 0, 0, 0, 0, 0, 1, 1, 1, 1]) 4 11 := by
+  refine ⟨by decide, ?_⟩
+  have e : strace Cfg.current 2 [0, 0, 1, 0, 0, 0, 0, 0, 1, 1, 1, 1] =
+      [⟨0, .read1⟩, ⟨0, .lock⟩, ⟨1, .read1⟩, ⟨0, .read2⟩, ⟨0, .construct⟩, ⟨0, .write⟩, ⟨0, .unlock⟩, ⟨0, .read3⟩,
+       ⟨1, .lock⟩, ⟨1, .read2⟩, ⟨1, .unlock⟩, ⟨1, .read3⟩] := by decide
+  rw [e]
+  exact .trans (k := 6) (.edge (.po (a := ⟨0, .construct⟩) (b := ⟨0, .unlock⟩) (by decide) rfl rfl rfl))
+    (.trans (k := 8) (.edge (.mutex (a := ⟨0, .unlock⟩) (b := ⟨1, .lock⟩) (by decide) rfl rfl rfl rfl))
+      (.edge (.po (a := ⟨1, .lock⟩) (b := ⟨1, .read3⟩) (by decide) rfl rfl rfl)))
+
+/-- Fast path: thread 1's acquire load reads the released pointer; positions 3 = construct(0),
+    4 = store(0), 5 = read1(1), 6 = read3(1): construct →po store →release/acquire read1 →po read3.
+    With `loadAcq := false` the middle edge does not exist (`C20_relaxed_load_unpublished_events`). -/
+example :
+    (strace Cfg.current 2 [0, 0, 0, 0, 0, 1, 1])[6]? = some ⟨1, .read3⟩ ∧
+    HBefore Cfg.current (strace Cfg.current 2 [0, 0, 0, 0, 0, 1, 1]) 3 6 := by
+  refine ⟨by decide, ?_⟩
+  have e : strace Cfg.current 2 [0, 0, 0, 0, 0, 1, 1] =
+      [⟨0, .read1⟩, ⟨0, .lock⟩, ⟨0, .read2⟩, ⟨0, .construct⟩, ⟨0, .write⟩, ⟨1, .read1⟩, ⟨1, .read3⟩] := by decide
+  rw [e]
+  exact .trans (k := 4) (.edge (.po (a := ⟨0, .construct⟩) (b := ⟨0, .write⟩) (by decide) rfl rfl rfl))
+    (.trans (k := 5) (.edge (.cell (a := ⟨0, .write⟩) (b := ⟨1, .read1⟩) (by decide) rfl rfl rfl rfl
+        (fun k c h1 h2 _ => by omega) (by decide) (by decide) (by decide)))
+      (.edge (.po (a := ⟨1, .read1⟩) (b := ⟨1, .read3⟩) (by decide) rfl rfl rfl)))
+
+/-- the bound of `C20_singleton_effective_steps_bound` is attained: three threads that all take
+    the slow path produce 7 + 5 + 5 events; stutter entries (here: thread 1 and 2 waiting for the
+    mutex, a non-existing thread 7) add none -/
+example : (strace Cfg.current 3 [0, 1, 2, 0, 1, 2, 7, 0, 0, 0, 0, 0, 1, 1, 1, 1, 2, 2, 2, 2]).length = 17 := by decide
+
+/-- the path of `C20_managed_result_published_events`, explicitly: trace positions 6 = `fEnd`,
+    7 = `storeF`, 8 = the observer's load; `fEnd →po storeF →release/acquire load` -/
+example :
+    (mtrace Cfg.current 1 [0, 0, 0, 1, 1, 1, 1, 1, 2])[6]? = some ⟨1, .fEnd⟩ ∧
+    MHB Cfg.current (mtrace Cfg.current 1 [0, 0, 0, 1, 1, 1, 1, 1, 2]) 6 8 := by
+  refine ⟨by decide, ?_⟩
+  have e : mtrace Cfg.current 1 [0, 0, 0, 1, 1, 1, 1, 1, 2] =
+      [⟨0, .begin⟩, ⟨0, .init⟩, ⟨0, .start⟩, ⟨1, .storeT⟩, ⟨1, .fBegin⟩, ⟨1, .inF⟩, ⟨1, .fEnd⟩, ⟨1, .storeF⟩,
+       ⟨2, .load⟩] := by decide
+  rw [e]
+  exact .trans (k := 7) (.edge (.po (a := ⟨1, .fEnd⟩) (b := ⟨1, .storeF⟩) (by decide) rfl rfl rfl))
+    (.edge (.flag (a := ⟨1, .storeF⟩) (b := ⟨2, .load⟩) (by decide) rfl rfl (Or.inr rfl) rfl
+      (fun k c h1 h2 _ => by omega) (by decide) (by decide)))
 
 /-- a sample as in `C20_managed_result_published` exists and is marked published -/
 example : (mhrun Cfg.current 1 [0, 0, 0, 1, 1, 1, 1, 1, 2]).2 = [(⟨2, .after, false, some false⟩, true)] := by decide
